@@ -2,6 +2,7 @@
 C07 — Protocol enforced: no put/get without a valid reservation of one's own.
 -/
 import FsVerif.Proofs.PosExtra
+import FsVerif.Proofs.BufExtra
 namespace FsVerif.Props.C07
 open FsVerif PosStore
 
@@ -89,5 +90,57 @@ theorem pos_put_consumes {s : PosStore} (hr : Reachable s) {p tid : Nat} (x : It
 /-- Non-vacuity: a state with a granted put token of process 1; process 2 is rejected, process 1 accepted. -/
 example : let s := run (init { cap := some 1 }) [.reservePut 1 0]
     (s.step (.put 2 0 ⟨5, 0⟩)).2 = .err .runtime ∧ (s.step (.put 1 0 ⟨5, 0⟩)).2 = .ok := by decide
+
+
+/-! ### BufferStore -/
+
+def BUntouched (s s' : BufStore) : Prop := s' = { s with fired := [] }
+
+theorem buf_put_rejected {s : BufStore} {p tid : Nat} (x : Item) (d : Nat) (h : ¬ BufStore.ValidPut s p tid) :
+    BUntouched s (s.step (.put p tid x d)).1 ∧ (s.step (.put p tid x d)).2 = .err .runtime := by
+  unfold BufStore.step BUntouched
+  simp only
+  rw [BufStore.put_reject x d (by simpa [BufStore.ValidPut] using h)]
+  exact ⟨rfl, rfl⟩
+
+theorem buf_get_rejected {s : BufStore} {p tid : Nat} (h : ¬ BufStore.ValidGet s p tid) :
+    BUntouched s (s.step (.get p tid)).1 ∧ (s.step (.get p tid)).2 = .err .runtime := by
+  unfold BufStore.step BUntouched
+  simp only
+  rw [BufStore.get_reject (by simpa [BufStore.ValidGet] using h)]
+  exact ⟨rfl, rfl⟩
+
+theorem buf_cancelPut_rejected {s : BufStore} {tid : Nat} (h : ¬ BufStore.KnownPut s tid) :
+    BUntouched s (s.step (.cancelPut tid)).1 ∧ (s.step (.cancelPut tid)).2 = .err .runtime := by
+  unfold BufStore.step BUntouched
+  simp only
+  rw [BufStore.cancelPut_reject (by simpa [BufStore.KnownPut] using h)]
+  exact ⟨rfl, rfl⟩
+
+theorem buf_cancelGet_rejected {s : BufStore} {tid : Nat} (h : ¬ BufStore.KnownGet s tid) :
+    BUntouched s (s.step (.cancelGet tid)).1 ∧ (s.step (.cancelGet tid)).2 = .err .runtime := by
+  unfold BufStore.step BUntouched
+  simp only
+  rw [BufStore.cancelGet_reject (by simpa [BufStore.KnownGet] using h)]
+  exact ⟨rfl, rfl⟩
+
+theorem buf_put_accepted {s : BufStore} (hr : BufStore.ReachD s) {p tid : Nat} (x : Item) (d : Nat)
+    (h : BufStore.ValidPut s p tid) : (s.step (.put p tid x d)).2 = .ok := by
+  unfold BufStore.step
+  exact BufStore.put_accept x d (BufStore.clearFired_core (BufStore.reachD_binv hr).toCore).toPre (by simpa [BufStore.ValidPut] using h)
+
+theorem buf_get_accepted {s : BufStore} (hr : BufStore.ReachD s) {p tid : Nat} (h : BufStore.ValidGet s p tid) :
+    ∃ e ∈ s.ready, (s.step (.get p tid)).2 = .item e.item := by
+  unfold BufStore.step
+  obtain ⟨e, h1, _, h3⟩ := BufStore.get_accept (BufStore.clearFired_core (BufStore.reachD_binv hr).toCore).toPre (by simpa [BufStore.ValidGet] using h)
+  exact ⟨e, h1, h3⟩
+
+theorem buf_cancel_accepted {s : BufStore} (hr : BufStore.ReachD s) {tid : Nat} :
+    (BufStore.KnownPut s tid → (s.step (.cancelPut tid)).2 = .ok) ∧
+    (BufStore.KnownGet s tid → (s.step (.cancelGet tid)).2 = .ok) := by
+  constructor
+  · intro h; unfold BufStore.step; exact BufStore.cancelPut_accept (by simpa [BufStore.KnownPut] using h)
+  · intro h; unfold BufStore.step
+    exact BufStore.cancelGet_accept (BufStore.clearFired_core (BufStore.reachD_binv hr).toCore).toPre (by simpa [BufStore.KnownGet] using h)
 
 end FsVerif.Props.C07
